@@ -188,6 +188,10 @@ type spec struct {
 	family string
 	// build-time expectation
 	skipUnit string // whole unit unspecified
+	// parts, when set, lists earlier (smaller) inputs of the same unit whose
+	// failure explains a failure on in; the failure is then reported under
+	// their signature (one root cause, one signature).
+	parts func(in string) []string
 	wantFn   func(input string, capture bool) *want
 }
 
